@@ -111,3 +111,17 @@ func init() {
 		Thorough:    plan{Builds: []buildCfg{{Race: false, Share: 3}, {Race: false, Tags: []string{"protoopaque"}, Share: 1}, {Race: false, Tags: []string{"protolegacy"}, Share: 1}}, Secs: 600},
 	}
 }
+
+func init() {
+	props["C17"] = &propCfg{
+		Level: "exploration",
+		Rule:  "a scenario is a seeded (lazy-capable type, 2-3 wire inputs: valid / legal non-minimal / corrupt inside a nested, preferably lazy, submessage; a history of 3-14 reads and writes); each input is decoded lazily and eagerly, verdicts compared, and the history is applied to both in lock-step with every result compared; the schedule dimension is when deferred decoding happens relative to writes, failed re-decodes, merges, clones and owner scribbles; non-trivial = history contains at least one write or re-decode after the first lazy decode; distinct by hash of (type, operation sequence)",
+		Assumptions: append([]string{"Size may differ between the two sides while a non-minimal encoding is still held undecoded (documented exception); partial states after a decode that failed on both sides are erased before continuing"}, commonAssumptions...),
+		Components:  comps("owner of the original input buffer (scribbles it at a seeded instant)"),
+		Clauses:     "same Unmarshal error verdict; same field values, presence, Equal, CheckInitialized, deterministic Marshal bytes, JSON and text content after every history; Marshal output encodes the same content; no panic at any access after a successful Unmarshal",
+		Probes:      []string{"failed-decode-mid-history", "initial-decode-rejected-by-both"},
+		FaultKinds:  []string{"failed-decode", "denormalised-wire", "scribble"},
+		Quick:       plan{Builds: []buildCfg{{Race: false, Share: 1}}, Secs: 30},
+		Thorough:    plan{Builds: []buildCfg{{Race: false, Share: 3}, {Race: false, Tags: []string{"protoopaque"}, Share: 2}, {Race: true, Share: 1}}, Secs: 900},
+	}
+}
